@@ -2,7 +2,8 @@
 (* Bounded scenarios of the finalization pipeline (E3) and edge emission (E1). *)
 EXTENDS Node, Json
 
-D(c, k, nr, r, af) == [chain |-> c, kind |-> k, newRound |-> nr, round |-> r, after |-> af]
+D(c, k, nr, r, af) == [chain |-> c, kind |-> k, newRound |-> nr, round |-> r, after |-> af, closes |-> {}, ext |-> <<"-", 0>>]
+DX(c, k, nr, r, af, cl, ex) == [chain |-> c, kind |-> k, newRound |-> nr, round |-> r, after |-> af, closes |-> cl, ext |-> ex]
 
 \* Scenario P: a pledge X on chain A (current round), deposits Y on chain B and Z on chain C.
 SnapP == {"X", "Y", "Z"}
@@ -25,7 +26,7 @@ HeadP2  == [c \in ChainP2 |-> 1]
 SnapQ == {"W", "X", "Y"}
 DefQ  == [s \in SnapQ |->
             CASE s = "W" -> D("A", "deposit", FALSE, 1, {})
-              [] s = "X" -> D("A", "pledge", TRUE, 2, {"W"})
+              [] s = "X" -> DX("A", "pledge", TRUE, 2, {"W"}, {"W"}, <<"-", 0>>)
               [] s = "Y" -> D("B", "deposit", FALSE, 1, {})]
 ChainQ == {"A", "B"}
 HeadQ  == [c \in ChainQ |-> 1]
@@ -46,11 +47,32 @@ DefM  == [s \in SnapM |->
 ChainM == {"A", "B"}
 HeadM  == [c \in ChainM |-> 1]
 
+\* Scenario O (out-of-order delivery): W and V fill round 1 of chain A, X opens round 2 and commits to
+\* both; the three certified snapshots may be delivered in any order.
+SnapO == {"W", "V", "X"}
+DefO  == [s \in SnapO |->
+            CASE s = "W" -> D("A", "deposit", FALSE, 1, {})
+              [] s = "V" -> D("A", "deposit", FALSE, 1, {})
+              [] s = "X" -> DX("A", "deposit", TRUE, 2, {}, {"W", "V"}, <<"-", 0>>)]
+ChainO == {"A"}
+HeadO  == [c \in ChainO |-> 1]
+
+\* Scenario U (unknown external reference): X opens round 2 of chain A referencing the final round 1 of
+\* chain B, which the node only stores once Z has opened round 2 of B.
+SnapU == {"W", "X", "Y", "Z"}
+DefU  == [s \in SnapU |->
+            CASE s = "W" -> D("A", "deposit", FALSE, 1, {})
+              [] s = "Y" -> D("B", "deposit", FALSE, 1, {})
+              [] s = "X" -> DX("A", "deposit", TRUE, 2, {"W"}, {"W"}, <<"B", 1>>)
+              [] s = "Z" -> DX("B", "deposit", TRUE, 2, {"Y"}, {"Y"}, <<"-", 0>>)]
+ChainU == {"A", "B"}
+HeadU  == [c \in ChainU |-> 1]
+
 \* Scenario T: ordinary traffic only: transfer X opening round 2 of A after deposit W, deposit Y on B.
 SnapT == {"W", "X", "Y"}
 DefT  == [s \in SnapT |->
             CASE s = "W" -> D("A", "deposit", FALSE, 1, {})
-              [] s = "X" -> D("A", "transfer", TRUE, 2, {"W"})
+              [] s = "X" -> DX("A", "transfer", TRUE, 2, {"W"}, {"W"}, <<"-", 0>>)
               [] s = "Y" -> D("B", "deposit", FALSE, 1, {})]
 ChainT == {"A", "B"}
 HeadT  == [c \in ChainT |-> 1]
@@ -60,20 +82,21 @@ KnownNone == {}
 Known21 == {"C21-1"}
 Known22 == {"C22-1"}
 
-View == <<ghost, nodeop, lock, body, head, topo, marker, pc, complete, up, broken, crashes, fresh, startedInTopo>>
+View == <<ghost, nodeop, lock, body, head, refsOK, topo, marker, pc, abort, tries, complete, up, broken, crashes, fresh, startedInTopo>>
 
 \* what the last step did, for the replayer (derived, not a variable)
 Act ==
     IF up /\ ~up' THEN [a |-> "Crash"]
     ELSE IF ~up /\ up' THEN [a |-> "Restart"]
-    ELSE LET s == CHOOSE x \in Snap : pc'[x] # pc[x] IN [a |-> "Step", s |-> s, call |-> PhaseName(s, pc'[s])]
+    ELSE LET s == CHOOSE x \in Snap : pc'[x] # pc[x] \/ tries'[x] # tries[x] IN
+         [a |-> "Step", s |-> s, call |-> IF tries'[s] # tries[s] THEN "Return" ELSE PhaseName(s, pc'[s])]
 
 St == [ghost |-> ghost, nodeop |-> nodeop, lock |-> lock, body |-> body, head |-> head, topo |-> topo,
        marker |-> marker, pc |-> pc, complete |-> complete, up |-> up, broken |-> broken,
-       crashes |-> crashes, fresh |-> fresh, sit |-> startedInTopo]
+       crashes |-> crashes, fresh |-> fresh, sit |-> startedInTopo, rok |-> refsOK, ab |-> abort, tr |-> tries]
 StP == [ghost |-> ghost', nodeop |-> nodeop', lock |-> lock', body |-> body', head |-> head', topo |-> topo',
        marker |-> marker', pc |-> pc', complete |-> complete', up |-> up', broken |-> broken',
-       crashes |-> crashes', fresh |-> fresh', sit |-> startedInTopo']
+       crashes |-> crashes', fresh |-> fresh', sit |-> startedInTopo', rok |-> refsOK', ab |-> abort', tr |-> tries']
 
 Emit == PrintT("EDGE " \o ToJson([from |-> St, o |-> Act, to |-> StP]))
 =============================================================================
